@@ -783,16 +783,39 @@ def elem_scalar(v, dtype):
 # arrays with symbolic extents (stub semantics S): z3 array terms
 
 class TArr:
-    """1-D/2-D array with symbolic extents: `term` is a z3 Array (Int[, Int] -> Real|Int|Bool)."""
+    """1-D/2-D array with symbolic extents: `term` is a z3 Array (Int[, Int] -> Real|Int|Bool).
 
-    __slots__ = ("term", "shape", "dtype", "slice_of", "gather_of")
+    `nan` (float arrays only): a z3 Array of the same domain into Bool -- "this element is NaN" -- or None meaning "no element is
+    NaN".  Only the element-wise readers / writers know about it (get, tarr.setitem, isnan).  Every other operation reaches the
+    values through `.term`, which is a chokepoint: with a mask present it demands that the path condition entails "no element
+    in bounds is NaN" (then the mask is dropped) and is outside the subset otherwise -- no operation silently ignores a NaN."""
 
-    def __init__(self, term, shape, dtype):
-        self.term = term
+    __slots__ = ("_term", "shape", "dtype", "slice_of", "gather_of", "nan")
+
+    def __init__(self, term, shape, dtype, nan=None):
+        self._term = term
         self.shape = tuple(shape)
         self.dtype = _np.dtype(dtype)
         self.slice_of = None      # (base array term, lo, hi) when this is a 1-D slice base[lo:hi] (kept for sums)
         self.gather_of = None     # (array term, index array term) when this is array[index array]
+        self.nan = nan
+
+    @property
+    def term(self):
+        if self.nan is not None:
+            I = CURRENT.get("interp")
+            idx = [z3.Int(f"%nn!{k}") for k in range(len(self.shape))]
+            inb = z3.And(*[z3.And(i >= 0, i < term_of(raw(n), "int")) for i, n in zip(idx, self.shape)])
+            if I is not None and getattr(I, "ctx", None) is not None and \
+                    I.ctx.entails_full(z3.ForAll(idx, z3.Implies(inb, z3.Not(z3.Select(self.nan, *idx))))):
+                self.nan = None
+            else:
+                raise Untranslatable("an array of symbolic extent that may hold NaN used as a whole")
+        return self._term
+
+    @term.setter
+    def term(self, t):
+        self._term = t
 
     @property
     def ndim(self):
@@ -802,8 +825,17 @@ class TArr:
         return {"f": "float", "i": "int", "u": "int", "b": "bool"}[self.dtype.kind]
 
     def get(self, idx):
-        t = z3.Select(self.term, *[term_of(i, "int") for i in idx])
+        ts = [term_of(i, "int") for i in idx]
+        t = z3.Select(self._term, *ts)
+        if self.nan is not None:
+            return mk(simp(t), self.kind(), True, simp(z3.Select(self.nan, *ts)))
         return mk(simp(t), self.kind(), True)
+
+    def nan_at(self, *idx):
+        """contract-side: is the element at idx NaN"""
+        if self.nan is None:
+            return False
+        return mk(simp(z3.Select(self.nan, *[term_of(raw(i), "int") for i in idx])), "bool")
 
     def __getitem__(self, idx):
         """contract-side read (no bounds branching): element term at (possibly symbolic) index"""
@@ -813,7 +845,34 @@ class TArr:
         return Sym(r.t, r.kind, False) if isinstance(r, Sym) else raw(r)
 
     def __repr__(self):
-        return f"TArr(shape={self.shape}, dtype={self.dtype}, {str(self.term)[:60]})"
+        return f"TArr(shape={self.shape}, dtype={self.dtype}, {str(self._term)[:60]})"
+
+
+class SymRange:
+    """range(n) with a symbolic stop"""
+
+    def __init__(self, n):
+        self.n = n            # Sym int
+
+    def elem(self, k):        # k: z3 Int term
+        return mk(k, "int")
+
+
+class SymList:
+    """A Python list of symbolic length n whose k-th element is elem(k) (k a z3 Int term): the value of a list comprehension
+    over range(<symbolic>) / over another such list.  Immutable (the code under contract only iterates / indexes it)."""
+
+    def __init__(self, n, elem):
+        self.n = n            # Sym int
+        self.elem = elem
+
+
+class SymGen:
+    """generator expression over a SymRange / SymList (single use is not modelled: the consumers read it once)"""
+
+    def __init__(self, n, elem):
+        self.n = n
+        self.elem = elem
 
 
 # ----------------------------------------------------------------------------------------------
